@@ -6,6 +6,7 @@ From Coq Require Import ExtrOcamlBasic.
 From CFDP Require Import Base.Prelude Model.Segments.
 From CFDP Require Import Model.Checksum.
 From CFDP Require Import Model.Path.
+From CFDP Require Import Model.Udp.
 
 Extraction Language OCaml.
 Extraction "model.ml"
@@ -13,4 +14,5 @@ Extraction "model.ml"
   Segments.seg_end Segments.end_or_0
   Checksum.file_checksum
   Path.path_components Path.path_strip_prefix Path.path_native Path.path_native2
+  Udp.udp_recv Udp.udp_initial_buffer
   .
